@@ -69,6 +69,7 @@ def impl_case(args) -> dict:
             p.write_text(text)
         other = Path(root) / f"w{idx}" / "elsewhere"
         other.mkdir(parents=True, exist_ok=True)
+        (other / ".thailintignore").write_text("src/\n*.py\nlib/\n")      # the cwd's own ignore file must not matter
         spellings = [("dot", proj, ".", [], []), ("abs", proj, str(proj), [], []), ("rel-from-parent", base, "proj", [], []),
                      ("abs-from-elsewhere", other, str(proj), [], []), ("rel-from-elsewhere", other, os.path.relpath(proj, other), [], []),
                      ("subdir-dotdot", proj / "src", "..", [], []),
